@@ -369,7 +369,13 @@ def run_case(case):
             # assigned values - the copied ones included - must be there
             after = live_held(real)
             for e, v in list(sim.inputs.items()):
-                if all(isinstance(x, str) for x in e[0]) and (e not in after or plain_real(after[e]) != v):
+                if not all(isinstance(x, str) for x in e[0]):
+                    # an assigned value inside an ItemSpace lives as long as the instance (a new member in the tree
+                    # the instance replicates discards it: C07): not asserted, forgotten with the instance
+                    if e not in after:
+                        rm.inputs.get((e[0], e[1]), {}).pop(e[2], None)
+                    continue
+                if e not in after or plain_real(after[e]) != v:
                     return out.fail("input-lost-on-copy", "assigned value %r=%r is %r after %r" % (
                         e, v, after.get(e, "<gone>"), op), i)
             extra = set(after) - sim.held
